@@ -172,9 +172,16 @@ def run(ctx: Ctx) -> None:
                 cases.append({"kind": "seq", "fmt": fmt, "seq": [[m, enc(gen_d(rng, f"E{i}"))] for i, m in enumerate(modes)]})
         ctx.exhaustive.append("all mode sequences of length <= 4 over {a, w, junk}")
     process(ctx, cases)
+    # histories of API calls (read / write / dump / parse with order and append modes, files with includes and comments)
+    # against the world model, with the direct oracles: sorted after order=True, nothing lost by an append
+    from props import api
+    api.run(ctx, 80, 2000, oracles=True)
 
 
 def replay(ctx: Ctx, case: dict) -> None:
+    if case.get("kind") == "api":
+        from props import api
+        api.process(ctx, [case], oracles=True); return
     process(ctx, [case])
 
 
